@@ -895,6 +895,26 @@ func (c *c19) runPar1(r *core.R, h *hostileEnv, j *c19Judge, p c19Params, rng *r
 			}
 			pairs = append(pairs, tm{x.file, p1Mutation{desc: x.m.desc + " AND " + y.m.desc, big: x.m.big || y.m.big, apply: func(b []byte) []byte { return y.m.apply(x.m.apply(b)) }}})
 		}
+		// and, systematically, every pair of header fields set to huge values
+		// that are consistent with each other (a size that covers a count)
+		hdrOffs := []int{0x38, 0x40, 0x48, 0x50, 0x58}
+		huge := []uint64{1 << 40, 58 << 40, 1 << 50, 58 << 50, 1 << 62}
+		for _, fn := range arch {
+			for a := 0; a < len(hdrOffs); a++ {
+				for b2 := a + 1; b2 < len(hdrOffs); b2++ {
+					for _, va := range huge {
+						for _, vb := range huge {
+							oa, ob, va, vb := hdrOffs[a], hdrOffs[b2], va, vb
+							pairs = append(pairs, tm{fn, p1Mutation{desc: fmt.Sprintf("header @%#x -> %d AND header @%#x -> %d", oa, va, ob, vb), apply: func(x []byte) []byte {
+								binary.LittleEndian.PutUint64(x[oa:], va)
+								binary.LittleEndian.PutUint64(x[ob:], vb)
+								return x
+							}}})
+						}
+					}
+				}
+			}
+		}
 		all = pairs
 	}
 	n := 0
@@ -927,7 +947,17 @@ func (c *c19) runPar1(r *core.R, h *hostileEnv, j *c19Judge, p c19Params, rng *r
 		os.WriteFile(filepath.Join(h.dir, t.file), out, 0644)
 		applyDamage()
 		j.big = t.m.big
-		j.run(r, t.file+": "+t.m.desc+" ["+p.Damage+"]")
+		alone := ""
+		if mi%3 == 2 && strings.HasSuffix(t.file, ".par") {
+			// the mutated index stands alone: no parity volume beside it
+			for _, fn := range arch {
+				if fn != t.file {
+					os.Remove(filepath.Join(h.dir, fn))
+				}
+			}
+			alone = ", no parity volume present"
+		}
+		j.run(r, t.file+": "+t.m.desc+" ["+p.Damage+alone+"]")
 		r.Key("par1|%s|%s|%s|%s", p.Family, t.file, t.m.desc, p.Damage)
 		n++
 	}
